@@ -187,21 +187,21 @@ class SimSocket(object):
         self.net = net
         self.sim = net.sim
         self.conn = None
-        self.closed = False
-        self._io_refs = 0
+        self.closed = False          # fd really released
+        self._closed = False         # close() called (CPython defers the
+        self._io_refs = 0            # real close while makefile()s exist)
         self.fd = net.new_fd(self)
         self.connect_failed = False
         self.sim.log('socket', self.fd)
 
     # -- helpers
-    def _released(self):
-        return self.closed and self._io_refs <= 0
-
     def _maybe_release(self):
-        if self._released() and self.conn is not None and \
-                not self.conn.client_released:
-            self.conn.client_released = True
-            self.conn.client_fin()
+        if self._closed and self._io_refs <= 0 and not self.closed:
+            self.closed = True
+            self.net.fds.pop(self.fd, None)
+            if self.conn is not None and not self.conn.client_released:
+                self.conn.client_released = True
+                self.conn.client_fin()
             self.sim.dirty = True
 
     # -- socket API used by pyCraft
@@ -228,7 +228,7 @@ class SimSocket(object):
     def makefile(self, mode='r', buffering=None):
         if mode != 'rb' or buffering != 0:
             raise HarnessError('unsupported makefile%r' % ((mode, buffering),))
-        if self.closed:
+        if self._closed:
             raise OSError(errno.EBADF, 'Bad file descriptor')
         self._io_refs += 1
         return SimSocketIO(self)
@@ -286,10 +286,9 @@ class SimSocket(object):
     def close(self):
         sim = self.sim
         sim.yield_point(14)
-        if not self.closed:
-            self.closed = True
+        if not self._closed:
+            self._closed = True
             sim.log('close', self.fd)
-            self.net.fds.pop(self.fd, None)
             self._maybe_release()
             sim.dirty = True
 
